@@ -539,6 +539,22 @@ pub fn gen_cases(rng: &mut Rng, n: usize, max_depth: usize) -> Vec<Case> {
         r#"{"type":"record","name":"R","fields":[{"name":"a","type":{"type":"fixed","name":"D","size":12,"logicalType":"duration"}},{"name":"b","type":"D"}]}"#,
         r#"{"type":"record","name":"ns.R","fields":[{"name":"a","type":{"type":"fixed","name":"U","size":16,"logicalType":"uuid"}},{"name":"b","type":["null","ns.U"]}]}"#,
         r#"{"type":"record","name":"R","fields":[{"name":"a","type":{"type":"fixed","name":"x.M","size":4,"logicalType":"decimal","precision":6,"scale":2}},{"name":"b","type":{"type":"array","items":"x.M"}}]}"#,
+        // field defaults: conforming ones of the less common kinds, and near misses the parser has to reject
+        r#"{"type":"record","name":"R","fields":[{"name":"a","type":["int","string"],"default":null}]}"#,
+        r#"{"type":"record","name":"R","fields":[{"name":"a","type":["string","null"],"default":null}]}"#,
+        r#"{"type":"record","name":"R","fields":[{"name":"a","type":[],"default":null}]}"#,
+        r#"{"type":"record","name":"R","fields":[{"name":"a","type":{"type":"array","items":["int","string"]},"default":[null]}]}"#,
+        r#"{"type":"record","name":"R","fields":[{"name":"a","type":"int","default":"1"}]}"#,
+        r#"{"type":"record","name":"R","fields":[{"name":"a","type":"int","default":2147483648}]}"#,
+        r#"{"type":"record","name":"R","fields":[{"name":"a","type":"string","default":1}]}"#,
+        r#"{"type":"record","name":"R","fields":[{"name":"a","type":"boolean","default":0}]}"#,
+        r#"{"type":"record","name":"R","fields":[{"name":"a","type":"null","default":0}]}"#,
+        r#"{"type":"record","name":"R","fields":[{"name":"a","type":{"type":"map","values":"int"},"default":{"k":"v"}}]}"#,
+        r#"{"type":"record","name":"R","fields":[{"name":"a","type":{"type":"map","values":"int"},"default":{"k":1}}]}"#,
+        r#"{"type":"record","name":"R","fields":[{"name":"a","type":{"type":"record","name":"I","fields":[{"name":"x","type":"int"}]},"default":{}}]}"#,
+        r#"{"type":"record","name":"R","fields":[{"name":"a","type":{"type":"record","name":"I","fields":[{"name":"x","type":"int"}]},"default":{"x":7}}]}"#,
+        r#"{"type":"record","name":"R","fields":[{"name":"a","type":{"type":"enum","name":"E","symbols":["A","B"]},"default":"C"}]}"#,
+        r#"{"type":"record","name":"R","fields":[{"name":"a","type":{"type":"fixed","name":"F","size":2},"default":"\u00ff\u0000"}]}"#,
         // unusual but legal names and namespaces
         r#"{"type":"record","name":"com._internal.Event","aliases":["com._internal._v2.Old"],"fields":[{"name":"k","type":{"type":"enum","name":"com._internal.Kind","symbols":["A"]}},{"name":"d","type":{"type":"fixed","name":"com._internal._v2.Digest","size":2}},{"name":"k2","type":"com._internal.Kind"}]}"#,
         r#"{"type":"fixed","name":"_","namespace":"_._","size":1}"#,
@@ -575,6 +591,34 @@ pub fn gen_cases(rng: &mut Rng, n: usize, max_depth: usize) -> Vec<Case> {
 }
 
 /// is this parsed schema well formed?  (an independent walk of the result)
+/// the first record field whose default is no value of the field's schema: (kind of the field's schema, description)
+pub fn bad_default(side: &crate::c08::Side, s: &Schema, ns: Option<String>) -> Option<(String, String)> {
+    let inner = crate::c08::inner_ns(s, &ns);
+    match s {
+        Schema::Record(r) => {
+            for f in &r.fields {
+                if let Some(d) = &f.default {
+                    if let Err(e) = crate::c08::default_value(side, &f.schema, inner.clone(), d) {
+                        let kind = match crate::c08::deref(side, &f.schema, inner.clone()) {
+                            Ok((t, _)) => format!("{:?}", apache_avro::schema::SchemaKind::from(t)),
+                            Err(_) => "?".to_string(),
+                        };
+                        return Some((kind, format!("field {} of {} has the default {d}, which is no value of its schema: {e}", f.name, r.name)));
+                    }
+                }
+                if let Some(b) = bad_default(side, &f.schema, inner.clone()) {
+                    return Some(b);
+                }
+            }
+            None
+        }
+        Schema::Array(a) => bad_default(side, &a.items, ns),
+        Schema::Map(m) => bad_default(side, &m.types, ns),
+        Schema::Union(u) => u.variants().iter().find_map(|b| bad_default(side, b, ns.clone())),
+        _ => None,
+    }
+}
+
 pub fn well_formed(s: &Schema) -> Result<(), String> {
     fn ident(s: &str) -> bool {
         let mut c = s.chars();
@@ -792,6 +836,13 @@ pub fn run(args: &[String], which: &str) -> i32 {
             "c11" => {
                 if let Err(why) = well_formed(schema) {
                     out.oracle_fail(&format!("accepted-not-well-formed: {}", why.split(' ').take(3).collect::<Vec<_>>().join(" ")), &why, &case);
+                }
+                // every field default conforms to its field's schema (the specification's reading of a JSON default)
+                if let Ok(rs) = ResolvedSchema::new(schema) {
+                    let side = crate::c08::Side { names: rs.get_names() };
+                    if let Some((kind, why)) = bad_default(&side, schema, None) {
+                        out.oracle_fail(&format!("accepted-default-does-not-conform: {kind}"), &why, &case);
+                    }
                 }
                 // every operation on an accepted schema completes
                 for (op, r) in [
